@@ -140,7 +140,9 @@ def check_futex(case, events):
         if e.tid != 0:
             done.add((e.tid, e.idx))
         if e.op in (3, 4, 8):
-            timeline.append((e.s0, 'store', e))
+            # a store that takes the memory mutex (atomic stores of the big-endian runtime, which emulates read-modify-writes under
+            # that mutex) takes effect when it holds it; a lock-free store between the scheduling points around the call
+            timeline.append((e.acqs[0] if e.acqs else e.s0, 'store', e))
         elif e.op in (0, 1):
             if not e.acqs:
                 return ('wait-no-lock', 'wait by thread %d did not take the memory mutex' % e.tid), classes
